@@ -702,7 +702,9 @@ impl RouterWorld {
             }
             i += 1;
         }
-        self.ended.retain(|e| !e.pending.is_empty());
+        // (an ended link whose last packets the router has not taken yet is still needed:
+        // the model learns from `pushed` what the router consumed)
+        self.ended.retain(|e| !e.pending.is_empty() || !e.pushed.is_empty());
         any
     }
 
